@@ -525,6 +525,11 @@ where
         while let Some(bundle) =
             seq.next_element_seed(DeserializeArchetype(self.0, &mut entities))?
         {
+            let mut ids = entities.iter().map(|e| e.id()).collect::<Vec<_>>();
+            ids.sort_unstable();
+            if ids.windows(2).any(|x| x[0] == x[1]) {
+                return Err(de::Error::custom("duplicate entity ID in archetype"));
+            }
             world.spawn_column_batch_at(&entities, bundle);
             entities.clear();
         }
